@@ -1,8 +1,53 @@
 (** CmdC11.v — command table of the model runner for property C11
     (commands 1100 .. 1199 of [run_cmd]; local number = c mod 100). *)
-From JSL Require Import Base.
+From JSL Require Import Base Instance Dstate Filters World Observers Session FeatureObservers Derived FeatureSpec.
+
+(** *** 1: a feature-observer session.
+    [I; filters; events] -> one output per event, each
+    [result; snapshot of the whole subscriber system].
+    Events:
+      [0; job; pos; [m]?]        dispatch (through World.dispatch with O := fsys)
+      [1]                        dispatcher.reset()
+      [2; kind; mask; [comps]?]  construct an observer now
+      [3; idx]                   dispatcher.unsubscribe(objs[idx]) *)
+Definition f_event (I : instance) (ev : val) (w : fwld) : fwld * val :=
+  let fin {A} (f : A -> val) (p : fwld * (A + exn)) : fwld * val := (fst p, enc_res f (snd p)) in
+  match asZ (vnth ev 0) with
+  | 0 => fin (fun _ : unit => VL []) (dispatch f_update I (dec_request ev) w)
+  | 1 => fin (fun _ : unit => VL []) (reset f_reset I w)
+  | 2 => fin vnat (f_construct I (dec_fkind (vnth ev 1)) (dec_ftm (vnth ev 2)) (asOpt (asLof asN) (vnth ev 3)) w)
+  | 3 => fin (fun _ : unit => VL []) (f_unsubscribe (asN (vnth ev 1)) w)
+  | _ => (w, VL [])
+  end.
+
+Fixpoint f_events (I : instance) (evs : list val) (w : fwld) : list val :=
+  match evs with
+  | [] => []
+  | ev :: t => let '(w', out) := f_event I ev w in
+               VL [out; enc_fsys (sys_of w'); enc_sched (sched (core w'))] :: f_events I t w'
+  end.
+
+Definition cmd_fsession (v : val) : val :=
+  let I := dec_instance (vnth v 0) in
+  let fs := asLof dec_fname (vnth v 1) in
+  VL (f_events I (asL (vnth v 2)) (fw fs (init_d I) empty_sys)).
+
+(** *** 2: the oracle. [I; filters; [rows ...]] -> [spec_table ...] *)
+Definition cmd_fspec (v : val) : val :=
+  let I := dec_instance (vnth v 0) in
+  let fs := asLof dec_fname (vnth v 1) in
+  VL (map (fun r => spec_table I fs (dec_sched r)) (asL (vnth v 2))).
+
+(** *** 3: the factory table and the class names. [] -> [[kind code; name] ...] *)
+Definition cmd_factory (v : val) : val :=
+  VL (map (fun c => match factory c with
+                    | Some k => VL [VI (fkind_code k); vlist VI (kind_name k)]
+                    | None => VL [] end) [0; 1; 2; 3; 4; 5; 6; 7]).
 
 Definition run_c11 (c : Z) (v : val) : val :=
   match c with
+  | 1 => cmd_fsession v
+  | 2 => cmd_fspec v
+  | 3 => cmd_factory v
   | _ => VL []
   end.
